@@ -94,8 +94,9 @@ def generate(G):
                     {"program": desc, "leaves": [[2], [2]], "tracked": [t0, t1], "seed": "explicit D4"}, unwind=6)
 
     # ---- (iii) data-dependent control flow (non-merging decision tree)
-    for it, tier in ((1, "thorough"), (2, "experimental")):
-        G.ob("c01_control_flow_%d" % it, "C01", "control_flow", "c01::control_flow(s, %d)" % it, unwind=7, tier=tier, heavy=True,
+    for it, tier in ((1, "quick"), (2, "thorough"), (3, "experimental")):
+        G.ob("c01_control_flow_%d" % it, "C01", "control_flow", "c01::control_flow(s, %d)" % it, unwind=7, tier=tier,
+             heavy=("huge" if it >= 2 else True),
              skeleton={"program": "README loop: c = c + a*b; if c[0] > t { c = c*a }", "iterations": it, "leaves_of_the_decision_tree": 2 ** it,
                        "shape": [1]}, domains="a, b, c, seed: D4; threshold t in {0.5, 2.5, 4.5, 6.5}")
 
